@@ -65,6 +65,13 @@ type treeCase struct {
 	Root *node  `json:"root"`
 	WD   string `json:"wd"` // working directory of the view ("." or a directory path)
 	Via  string `json:"via"` // "new" (New(c, tree, wd)) | "chdir" (New(c, tree, ".").ChangeDir(wd))
+	// Listing != 0: the Directory messages do not list their files, subdirectories and symlinks in
+	// lexicographic order, and Tree.children is not in traversal order (REAPI asks clients to upload
+	// canonical Directories, but nothing makes a Tree that a server returns — or that Please assembles
+	// itself for a flattened output_dirs root — sorted, and the view is not documented to need it).
+	// Listing%3 == 0: every list reversed; otherwise: every list permuted by a PRNG seeded with Listing.
+	// 0 = canonical (sorted) messages. The model stays sorted either way.
+	Listing int64 `json:"listing,omitempty"`
 }
 
 // names all match \.?n[0-9][a-z0-9.]* so that messages can be abstracted; they include sibling
@@ -279,6 +286,9 @@ func genTree(rng *rand.Rand, hostile bool) treeCase {
 			tc.Via = "chdir"
 		}
 	}
+	if rng.Intn(2) == 0 { // drawn last: the tree itself is the same as it would be without this
+		tc.Listing = 1 + rng.Int63n(1<<40)
+	}
 	return tc
 }
 
@@ -306,8 +316,54 @@ func props(mode uint32) *pb.NodeProperties {
 	return &pb.NodeProperties{UnixMode: &wrapperspb.UInt32Value{Value: mode}}
 }
 
-func buildPB(n *node, cas *memCAS, children *[]*pb.Directory) *pb.Directory {
+// A lister decides the order in which a Directory message lists its entries (nil = the model's sorted order).
+type lister struct {
+	rng     *rand.Rand
+	reverse bool
+	order   map[string]string // directory path -> the order of its lists as emitted (for the witness)
+}
+
+func newLister(listing int64) *lister {
+	if listing == 0 {
+		return nil
+	}
+	return &lister{rng: rand.New(rand.NewSource(listing)), reverse: listing%3 == 0, order: map[string]string{}}
+}
+
+func (l *lister) arrange(n int, swap func(i, j int)) {
+	if l.reverse {
+		for i, j := 0, n-1; i < j; i, j = i+1, j-1 {
+			swap(i, j)
+		}
+		return
+	}
+	l.rng.Shuffle(n, swap)
+}
+
+func buildPB(n *node, cas *memCAS, children *[]*pb.Directory, l *lister, at string) *pb.Directory {
 	d := &pb.Directory{NodeProperties: props(n.Mode)}
+	if l != nil {
+		// the lists are put in their final order before any digest is taken (children are built below, in
+		// the permuted order, which also unsorts Tree.children)
+		defer func() {
+			var o []string
+			for _, x := range d.Files {
+				o = append(o, x.Name)
+			}
+			o = append(o, "|")
+			for _, x := range d.Directories {
+				o = append(o, x.Name+"/")
+			}
+			o = append(o, "|")
+			for _, x := range d.Symlinks {
+				o = append(o, x.Name+"@")
+			}
+			l.order[at] = strings.Join(o, " ")
+		}()
+		cs := append([]*node(nil), n.Children...)
+		l.arrange(len(cs), func(i, j int) { cs[i], cs[j] = cs[j], cs[i] })
+		n = &node{Name: n.Name, Kind: n.Kind, Mode: n.Mode, Children: cs}
+	}
 	for _, c := range n.Children {
 		switch c.Kind {
 		case tFile:
@@ -315,7 +371,7 @@ func buildPB(n *node, cas *memCAS, children *[]*pb.Directory) *pb.Directory {
 			cas.blobs[dg] = []byte(c.Content)
 			d.Files = append(d.Files, &pb.FileNode{Name: c.Name, Digest: dg.ToProto(), IsExecutable: c.Mode&0o111 != 0, NodeProperties: props(c.Mode)})
 		case tDir:
-			sub := buildPB(c, cas, children)
+			sub := buildPB(c, cas, children, l, path.Join(at, c.Name))
 			dg, err := digest.NewFromMessage(sub)
 			if err != nil {
 				panic(err)
@@ -330,14 +386,32 @@ func buildPB(n *node, cas *memCAS, children *[]*pb.Directory) *pb.Directory {
 }
 
 func makeFS(tc treeCase) (*remotefs.CASFileSystem, *memCAS) {
+	fsys, cas, _ := makeFSListing(tc)
+	return fsys, cas
+}
+
+// makeFSListing also returns the order in which every Directory message lists its entries ("files | dirs/ | links@").
+func makeFSListing(tc treeCase) (*remotefs.CASFileSystem, *memCAS, map[string]string) {
+	fsys, cas, l := makeFSWith(tc)
+	if l == nil {
+		return fsys, cas, nil
+	}
+	return fsys, cas, l.order
+}
+
+func makeFSWith(tc treeCase) (*remotefs.CASFileSystem, *memCAS, *lister) {
 	cas := &memCAS{blobs: map[digest.Digest][]byte{}}
 	var children []*pb.Directory
-	root := buildPB(tc.Root, cas, &children)
+	l := newLister(tc.Listing)
+	root := buildPB(tc.Root, cas, &children, l, ".")
 	tree := &pb.Tree{Root: root, Children: children}
-	if tc.Via == "chdir" {
-		return remotefs.New(cas, tree, ".").ChangeDir(tc.WD), cas
+	if l != nil {
+		l.arrange(len(children), func(i, j int) { children[i], children[j] = children[j], children[i] })
 	}
-	return remotefs.New(cas, tree, tc.WD), cas
+	if tc.Via == "chdir" {
+		return remotefs.New(cas, tree, ".").ChangeDir(tc.WD), cas, l
+	}
+	return remotefs.New(cas, tree, tc.WD), cas, l
 }
 
 // ---------------------------------------------------------------------------------------------
@@ -943,8 +1017,36 @@ func inProcess(r *lib.Run, stream string, i int, tc treeCase) {
 	for k, v := range obs {
 		r.Obs(k, int64(v))
 	}
+	wit := map[string]any{"case": tc}
+	if tc.Listing != 0 {
+		r.Obs("trees_with_unsorted_directory_messages", 1)
+		_, _, order := makeFSListing(tc)
+		wit["directory_messages_list (files | dirs/ | symlinks@)"] = order
+		for _, o := range order {
+			if f := strings.Split(o, "|"); len(f) == 3 && !sort.StringsAreSorted(strings.Fields(f[1])) {
+				r.Obs("directory_messages_with_subdirectories_out_of_order", 1)
+			}
+		}
+		if len(fs) > 0 {
+			// a finding that the same tree does not produce when its messages are canonical belongs to the
+			// class "the view depends on the order in which a Directory lists its entries"
+			canon := tc
+			canon.Listing = 0
+			cfs, _ := checkCase(canon, "main")
+			sorted := map[string]bool{}
+			for _, fd := range cfs {
+				sorted[fd.Key] = true
+			}
+			for k := range fs {
+				if !sorted[fs[k].Key] {
+					fs[k].Key += "@unsorted-directory-message"
+					fs[k].What += " — the Tree's Directory messages list their entries out of lexicographic order (see the witness); the same tree with sorted messages does not show this"
+				}
+			}
+		}
+	}
 	for _, fd := range fs {
-		r.Violation(fd.Key, fd.What, map[string]any{"case": tc}, i)
+		r.Violation(fd.Key, fd.What, wit, i)
 	}
 	if r.WantSample() && len(all) >= 5 && obs["symlink_file"]+obs["symlink_dir"] > 0 {
 		r.Sample(tc)
@@ -958,9 +1060,10 @@ func TestC29(t *testing.T) {
 	iplib.Quiet()
 	r := lib.Start("C29")
 	defer lib.End(t, r)
-	r.Rule = "seeded REAPI Trees of 4-17 entries, depth <=3, names with sibling prefixes/hidden/dotted, files sharing digests, empty directories, symlinks to files, directories, other symlinks, dangling, beyond the root; stream 'hostile' additionally plants symlink loops of length 1-3, links to ancestors and absolute targets; a third of the cases view the tree from a sub-directory (New(...,wd) or ChangeDir). Distinct by tree+view; non-trivial = at least 3 entries"
+	r.Rule = "seeded REAPI Trees of 4-17 entries, depth <=3, names with sibling prefixes/hidden/dotted, files sharing digests, empty directories, symlinks to files, directories, other symlinks, dangling, beyond the root; stream 'hostile' additionally plants symlink loops of length 1-3, links to ancestors and absolute targets; a third of the cases view the tree from a sub-directory (New(...,wd) or ChangeDir); in half of the cases the Directory messages list files, subdirectories and symlinks out of order (all reversed, or permuted) and Tree.children is permuted. Distinct by tree+view; non-trivial = at least 3 entries"
 	r.Assumes = []string{
 		"the in-memory CAS returns exactly the generated blobs",
+		"a Tree is any well-formed pb.Tree: the order in which a Directory message lists its entries carries no meaning, so the view must be the same for sorted and unsorted messages (ReadDirFile.ReadDir order is never asserted; fs.ReadDir / WalkDir sort themselves)",
 		"testing/fstest.TestFS of the Go toolchain is the io/fs contract; it is applied only to views whose symlinks all resolve inside the tree (it opens every symlink)",
 		"paths that pass through a symlinked directory are not asserted (the statement does not say whether the view resolves them)",
 		"symlink loops are opened in child processes only (START/DONE log); a child that dies with 'stack overflow' in remote/fs frames is the crash the statement forbids",
@@ -981,5 +1084,5 @@ func TestC29(t *testing.T) {
 	r.ForEach("loops", nb, 4, func(b int, _ *rand.Rand) {
 		runLoopBatch(r, b, loopJobs[b*batch:min((b+1)*batch, len(loopJobs))])
 	})
-	r.RequireObserved("trees_checked", "fstest_runs", "files_read", "symlinks_opened", "symlink_loops_opened", "absent_paths_probed", "symlink_absolute", "symlink_escapes-root", "views_from_a_subdirectory")
+	r.RequireObserved("trees_checked", "fstest_runs", "files_read", "symlinks_opened", "symlink_loops_opened", "absent_paths_probed", "symlink_absolute", "symlink_escapes-root", "views_from_a_subdirectory", "trees_with_unsorted_directory_messages", "directory_messages_with_subdirectories_out_of_order")
 }
